@@ -26,6 +26,9 @@ PD = "tracklib.core.utils:priority_dict."
 DEPENDS = []
 
 
+EXPORT = {}
+
+
 def _q(ex, st, f):
     return ex.read_field(st, f, "q")
 
@@ -105,7 +108,10 @@ def register(reg):
             "any(self.NEXT_EDGES[v.antecedent.id][t] == v.antecedent_edge for t in range(0, len(self.NEXT_EDGES[v.antecedent.id]))) and "
             "(%s.source if %s.target.id == v.antecedent.id else %s.target) is v and v.poids == v.antecedent.poids + %s.weight) for v in refs(Node))"
             % (isn("v"), isn("v.antecedent"), AE, AE, AE, AE, AE))
-    INV = WFNET + LABELS + [RELAXED, QUEUE, QNODES, ORDER, SETTLED_REACHED, TREE]
+    SRCROOT = ["SRC.antecedent is None",
+               "SRC.visite or all(implies(%s and n is not SRC, n.poids == -1) for n in refs(Node))" % isn("n")]
+    INV = WFNET + LABELS + [RELAXED, QUEUE, QNODES, ORDER, SETTLED_REACHED, TREE] + SRCROOT
+    EXPORT.update(WFNET=WFNET, LABELS=LABELS, TREE=TREE, ISNODE=ISNODE, SETTLED_REACHED=SETTLED_REACHED)
     IN = dict(self="Network", fil="obj[priority_dict]", pere="Node", source="any", target="opt[any]", cut="float")
     reg.add(Spec(NW + "run_routing_forward", IN, "none", ghost=dict(SRC="Node"),
                  region=("while len(fil) != 0:", None), let=dict(heuristic="0", output_dict="None"),
@@ -121,13 +127,13 @@ def register(reg):
                             ("all(implies(%s and u.visite and 0 <= t and t < len(self.NEXT_EDGES[u.id]) and (u is not pere or t < t_), "
                              "%s.poids != -1 and %s.poids <= u.poids + %s.weight) for u in refs(Node) for t in ints)"
                              % (isn("u"), far("u", "t"), far("u", "t"), EDGE_OF % ("u", "t"))),
-                            QUEUE, QNODES, SETTLED_REACHED, TREE,
+                            QUEUE, QNODES, SETTLED_REACHED, TREE, "SRC.antecedent is None and SRC.visite",
                             # every settled label and pere's label bound the queue from below
                             "all(implies(%s and u.visite and inq(fil, k), u.poids <= prio(fil, k)) for u in refs(Node) for k in refs(Node))" % isn("u"),
                             # labels settle in non-decreasing order: nothing settled is above the node being expanded
                             "all(implies(%s and u.visite, u.poids <= pere.poids) for u in refs(Node))" % isn("u"),
                             "unchanged_except('priority_dict.q', fil)", "heuristic == 0"])},
-                 ensures=[("labels", " and ".join(LABELS)), ("relaxed", RELAXED), ("settled-before-queued", ORDER), ("predecessor-tree", TREE),
+                 ensures=[("labels", " and ".join(LABELS)), ("relaxed", RELAXED), ("settled-before-queued", ORDER), ("predecessor-tree", TREE), ("source-is-the-root", "SRC.antecedent is None"),
                           ("queue-consistent-except-the-node-in-hand",
                            "all(implies(%s and n is not pere, inq(fil, n) == (n.poids != -1 and not n.visite) and implies(inq(fil, n), prio(fil, n) == n.poids)) "
                            "for n in refs(Node))" % isn("n")),
